@@ -47,6 +47,10 @@ CHECKS = {
   technique="TLA+ spec (NodeClock.tla) model-checked with TLC over writes/remote deltas/checkpoints/crash/recovery; exported lives replayed on a real ReplicatedShardedState; traces validated by TLC (NodeClockTrace.tla)",
   text="design level: StampAboveSeen, NeverRepeats, NewestWins, ClockDominates over all interleavings of local writes, remote stamps, checkpoints and up to 2 crashes, with the as-built counterexample; implementation level: every exported life and thousands of random ones run on a real node (16 shard actors, snapshot_state/apply_recovered_state as restart) and TLC checks every issued stamp against everything the running node has observed for the key",
   note="durability of acknowledged writes assumed (C09/C12); stamps compared per key because the code has one clock per shard"),
+ "C02": dict(
+  technique="TLA+ spec (ShardActors.tla: clients, FIFO mailboxes, shard actors, one-shot and pooled reply slots with acquire/send/receive/reset/cancel) model-checked with TLC incl. liveness; TLC-simulated behaviours projected to inv/run/recv/cancel schedules and replayed by polling real futures on a real ShardedActorState; free-running multi-thread histories recorded with tickets; every per-key history checked by TLC for a linearization (LinTrace.tla witness search against the register/counter specification)",
+  text="design level: every interleaving of 2 clients x 2 calls over 2 keys / 2 shards with pool capacity 1 satisfies ReplyMatchesRequest, NoSharedSlot, SlotDiscipline, and every uncancelled call returns; the guard-release switch reproduces the stale-reply counterexample. Implementation level: 2.5k/20k TLC schedules (3 clients x 3 calls, all five entry paths, one cancellation) polled in order on the real state with 1-2 slot pools, and 4k/60k free-running histories (3-8 client tasks, 4 worker threads, register + counter keys, cross-shard batches, scripts, cancellation); each per-key history must have a linearization",
+  note="explored schedules only; multi-key commands judged per key; single node"),
  "C14": dict(
   technique="TLA+ spec (ImageLayout.tla: byte regions, roles and reader checks of segment / checkpoint / WAL entry images) model-checked with TLC (protection obligations, verdict totality); the CRDT value universe exported from Crdt.tla by TLC is rebuilt as real values and pushed through the four real codecs; real images under every cut and bit flip are read by the real readers and each answer is judged by TLC from the layout arithmetic (ImageTrace.tla)",
   text="round trip: every replica value of every TLC-exported Crdt.tla configuration (six kinds, tombstones, expiry, vector clocks) plus payload classes (empty, 0x00, 0xff, all 256 bytes, invalid UTF-8, 64 KiB+, odd and 5000-byte keys, u64 limits, 0/1/300 hash fields with deleted fields) and random scenarios, through WalEntry, SegmentWriter/Reader, CheckpointWriter/Reader and GossipMessage JSON, compared structurally on all fields; damage: images of 1-3 updates x every cut length x every single-bit flip x 2-4 byte bursts and zero fills (13k quick / 40k thorough cases) - the reader must answer error wherever the specification's regions are protected, may answer same only on padding/unused bytes, never different, never panic",
